@@ -51,7 +51,7 @@ def roundtrip(nrec, enc, blocked, cfgs=None, shapes=None):
         require(len(got) == nrec, 'read %d messages, wrote %d' % (len(got), nrec), key='C06/count', replay=rp)
         for i, (d, (msg, elems)) in enumerate(zip(got, recs)):
             compare_record(d, msg, elems, 'C06/value', rp, 'record %d: ' % (i + 1))
-        return {'sample': {'shapes': [sorted(int(k[2:]) for k in mm if k != 'MTI') for mm, _ in recs], 'enc': enc, 'blocked': blocked,
+        return {'sample': {'shapes': [sorted(k for k in mm if k != 'MTI') for mm, _ in recs], 'enc': enc, 'blocked': blocked,
                            'size': ev(f.size())}, 'replay': rp()}
     return h
 
@@ -128,6 +128,48 @@ def readers_isolated(steps, blocked):
     return h
 
 
+def configs_isolated(blocked):
+    """two writers/readers with different caller-supplied configurations (same element numbers, different processors) used in one process"""
+    import copy
+
+    def h():
+        core.FUEL.set(20)
+        m = M().mciipm
+        cfgA = None                                   # packaged: DE48 is the first PDS carrier
+        cfgB = copy.deepcopy(bit_config())
+        del cfgB['48']['field_processor']            # DE48 is plain text here, PDS sub-elements go to DE62
+        order = choose('order', ['A-then-B', 'B-then-A'])
+        nA = sym_int('a_len', 0, 200)
+        nB = sym_int('b_len', 0, 200)
+        nT = sym_int('text_len', 1, 300)
+        vA = Source('pdsA', 't', nA).rope() if True else ''
+        vB = Source('pdsB', 't', nB).rope()
+        text = Source('de48text', 't', nT).rope()
+        msgA = {'MTI': '1240', 'DE2': '4444555566667777', 'PDS0023': vA}
+        msgB = {'MTI': '1240', 'DE48': text, 'PDS0023': vB}
+        rp = {'kind': 'configs', 'args': {'order': order, 'blocked': blocked, 'lens': [ev(nA), ev(nB), ev(nT)]}}
+        fa, fb = RopeFile(), RopeFile()
+        wa = m.IpmWriter(fa, blocked=blocked, iso_config=cfgA)
+        wb = m.IpmWriter(fb, blocked=blocked, iso_config=cfgB)
+        with guard('writers with two configurations', 'C06/config-isolation', rp):
+            for who in (order.split('-then-')):
+                if who == 'A':
+                    wa.write(dict(msgA))
+                else:
+                    wb.write(dict(msgB))
+            wa.close()
+            wb.close()
+            da = list(m.IpmReader(fa, blocked=blocked, iso_config=cfgA))
+            core.FUEL.set(20)
+            db = list(m.IpmReader(fb, blocked=blocked, iso_config=cfgB))
+        require(len(da) == 1 and len(db) == 1, 'record counts', key='C06/config-isolation', replay=rp)
+        req_eq(da[0].get('PDS0023'), vA, 'packaged configuration: PDS0023 changed', key='C06/config-isolation', replay=rp)
+        req_eq(db[0].get('DE48'), text, 'custom configuration: DE48 text was replaced', key='C06/config-isolation', replay=rp)
+        req_eq(db[0].get('PDS0023'), vB, 'custom configuration: PDS0023 changed', key='C06/config-isolation', replay=rp)
+        return {'sample': rp['args'], 'replay': rp}
+    return h
+
+
 def obligations(tier):
     q = tier == 'quick'
     obs = []
@@ -142,7 +184,13 @@ def obligations(tier):
     obs.append(Ob('rt2/custom-config/latin_1/vbs', roundtrip(2, 'latin_1', False, cfgs=GENERIC['g-typed']), 300, 'caller-supplied configuration g-typed', _funcs))
     if not q:
         obs.append(Ob('rt3/cp500/1014', roundtrip(3, 'cp500', True, shapes=SHAPES[:3]), 1800, 'three messages', _funcs))
+    LONG = [[54, 72, 111, 127], [2, 72, 'PDS0023', 'PDS0052']]
+    for enc, blocked in (('latin_1', True), ('cp500', True), ('cp037', False)):
+        obs.append(Ob('rt1-long/%s/%s' % (enc, '1014' if blocked else 'vbs'), roundtrip(1, enc, blocked, shapes=LONG), 900,
+                      'one long message (shapes %s, every length up to 999 / 992 each: records up to ~4000 bytes over several blocks)' % LONG, _funcs))
     for blocked in (False, True):
+        obs.append(Ob('isolation/configs/%s' % ('1014' if blocked else 'vbs'), configs_isolated(blocked), 300,
+                      'packaged and caller-supplied configuration (same element numbers, DE48 plain text) used in one process, both orders', _funcs))
         obs.append(Ob('isolation/writers/%s' % ('1014' if blocked else 'vbs'), writers_isolated(3 if q else 5, blocked), 600,
                       'two writers, every schedule of %d writes' % (3 if q else 5), _funcs))
         obs.append(Ob('isolation/readers/%s' % ('1014' if blocked else 'vbs'), readers_isolated(4 if q else 6, blocked), 600,
